@@ -513,6 +513,21 @@ inductive Op where
 
 def clearOp (s : State) : State := { s with launched := [], polls := [], ghosts := [], db := none }
 
+/-- the queue-if-ready sweep over waiting, unqueued, released proxies -/
+def sweepQueue (s : State) : State :=
+  s.pool.foldl (fun st x => match st.get? x.pt x.name with
+    | some y => if y.status == .waiting && !y.queued && !y.runahead then queueIfReady st y else st
+    | none => st) s
+
+/-- end of the main loop: updated flags, DB commit of the task pool, stall check -/
+def finishLoop (g : Graph) (s : State) : State :=
+  let hasUpd := s.schedUpd || s.pool.any (·.upd)
+  let s := if hasUpd then
+      { s with stalled := false, schedUpd := false, pool := s.pool.map fun x => { x with upd := false } }
+    else s
+  let s := { s with db := some s.pool }      -- put_task_pool + process_queued_ops
+  if !hasUpd then checkStalled g s else s
+
 /-- one iteration of `Scheduler._main_loop` -/
 def mainLoop (g : Graph) (s : State) : State :=
   if s.stop.isSome then s else
@@ -521,18 +536,10 @@ def mainLoop (g : Graph) (s : State) : State :=
   -- workflow_shutdown
   let (s, auto) := checkAutoShutdown g s
   if auto then { s with stop := some "AUTOMATIC" } else
-  -- queue-if-ready sweep
-  let s := s.pool.foldl (fun st x => match st.get? x.pt x.name with
-    | some y => if y.status == .waiting && !y.queued && !y.runahead then queueIfReady st y else st
-    | none => st) s
+  let s := sweepQueue s
   let s := releaseAndSubmit s
   let s := processQueue g s
-  let hasUpd := s.schedUpd || s.pool.any (·.upd)
-  let s := if hasUpd then
-      { s with stalled := false, schedUpd := false, pool := s.pool.map fun x => { x with upd := false } }
-    else s
-  let s := { s with db := some s.pool }      -- put_task_pool + process_queued_ops
-  if !hasUpd then checkStalled g s else s
+  finishLoop g s
 
 def step (g : Graph) (s : State) (op : Op) : State :=
   let s := clearOp s
